@@ -11,7 +11,7 @@ ASSUMPTIONS = [
     '-DNDEBUG build',
 ]
 OUTSIDE = ['more than 3 levels', 'grids other than 9x8/5x4 and 17x16/9x8/5x4', 'rounding']
-BOUNDS = {'quick': 'V cycle plain and extrapolated, give, both boundary modes, (nu1,nu2) in {(1,1),(0,0)}; every one of the six cycle functions on 2 levels (fixed point and nu=0 coarse correction) and on 3 levels (17x16/9x8/5x4: fixed point; extrapolated cycles also from a zero-extrapolated-residual iterate without smoothing)',
+BOUNDS = {'quick': 'V cycle plain and extrapolated, give, both boundary modes, (nu1,nu2) in {(1,1),(0,0),(2,0),(0,2)}; every one of the six cycle functions on 2 levels (fixed point and nu=0 coarse correction) and on 3 levels (17x16/9x8/5x4: fixed point; extrapolated cycles also from a zero-extrapolated-residual iterate without smoothing)',
           'thorough': 'V/W/F x plain/extrapolated x both strategies x both modes x (nu1,nu2) in {(0,0),(1,1),(2,1),(0,2)} x extrapolation modes 0-3 (COMBINED with either smoother active); 2 levels, and 3 levels for the fixed point'}
 
 
@@ -39,6 +39,9 @@ def jobs(tier, seed):
         add('h_coarse_correction', 2, 2, 0, 1, 0, 0, 0, 0, 0, 0)
         add('h_fixed_point', 1, 1, 1, 1, 1, 1, 0, 0, 0, 0)
         add('h_fixed_point', 2, 0, 1, 0, 1, 1, 0, 0, 0, 0)
+        # other smoothing counts (0 and >= 2 on either side)
+        add('h_fixed_point', 0, 1, 0, 1, 2, 0, 0, 0, 0, 0)
+        add('h_fixed_point', 2, 0, 1, 1, 0, 2, 0, 0, 0, 0)
         # three levels: the recursive branches of the F and W cycles (stale scratch vectors on the intermediate level)
         add('h_fixed_point', 2, 0, 0, 0, 1, 1, 1, 0, 0, 0)
         add('h_fixed_point', 1, 1, 1, 1, 1, 1, 1, 0, 0, 0)
